@@ -21,6 +21,7 @@ import (
 	"fmt"
 	"io"
 	"iter"
+	"slices"
 	"sync"
 	"sync/atomic"
 	"time"
@@ -178,9 +179,11 @@ func (w *Worker) Open(ctx context.Context) (err error) {
 		})
 	}()
 
-	for task := range w.FirstTask.Tasks() {
+	tasks := slices.Collect(w.FirstTask.Tasks())
+	for i, task := range tasks {
 		err = task.Open(ctx)
 		if err != nil {
+			releaseUnopenedProcessors(ctx, tasks[i+1:])
 			return cerrors.Errorf("task %s failed to open: %w", task.ID(), err)
 		}
 
@@ -206,6 +209,12 @@ func (w *Worker) Open(ctx context.Context) (err error) {
 
 	r.Skip()
 	return nil
+}
+
+// Discard releases what the tasks of a worker hold that was built but will
+// never be opened (see releaseUnopenedProcessors).
+func (w *Worker) Discard(ctx context.Context) {
+	releaseUnopenedProcessors(ctx, slices.Collect(w.FirstTask.Tasks()))
 }
 
 // Stop stops the worker from processing more records. It does not stop the
